@@ -43,7 +43,7 @@ CHECKS['C15'] = dict(
     category='other',
     text='Bounded symbolic execution (CrossHair/z3) of the real AdbConnection.connect/open_stream/close paths against a message-level scripted device: handshake outcome and every packet sent equal a specification automaton '
          'for all reply scripts up to the bound (any command, symbolic arguments, silence, symbolic timeout expiry, 0-2 keys); open_stream over replies addressed to this/another/unknown stream from an arbitrary allocator state; '
-         'local/remote/double close; illegal mid-session packets; and an inductive step for stream-id allocation from an arbitrary pre-state (covers wrap-around and histories of any length).',
+         'a refusal (CLSE) of a half-open OPEN that is received by another stream\'s reader (the two-thread schedule written out with the real functions); local/remote/double close; illegal mid-session packets; and an inductive step for stream-id allocation from an arbitrary pre-state (covers wrap-around and histories of any length).',
     note='Trusted: CrossHair+z3; message-level FakeAdapter (framing is C13), queue/KeyList/ScriptTimeout stubs, the specification automaton in props/C15.py. Outside: >64 consecutive live ids, real RSA, thread interleavings (C14).',
     technique='symbolic execution (CrossHair/z3) vs specification automaton; inductive step for id allocation',
     design='3/C15')
@@ -65,7 +65,7 @@ CHECKS['C06'] = dict(
 CHECKS['C05'] = dict(
     category='other',
     text='Bounded symbolic execution (CrossHair/z3) of the real per-phase pipeline (TestExecutor._execute_phase, PhaseExecutor.execute_phase/_should_repeat/_execute_phase_once, PhaseExecutorThread._thread_proc, running_phase_context, PhaseState.finalize, diagnosers) '
-         'for one script-driven phase: per-invocation behaviour, options, measurement, diagnoser results, position and previous record are symbolic; the records, invocation count, diagnoser runs and executor return equal the decision table of the statement.',
+         'for one script-driven phase: per-invocation behaviour, options, measurement, diagnoser results, position and previous record are symbolic; the records, invocation count, diagnoser runs and executor return equal the decision table of the statement; a run_if whose answer changes between invocations is consulted before every invocation.',
     note='Trusted: CrossHair+z3, synchronous thread stubs (bodies run inline), FakeClock, the decision table in props/C05.py. Timeout is a scripted behaviour. <=4 invocations, repeat_limit in {None,1..4}.',
     technique='symbolic execution (CrossHair/z3) vs decision table',
     design='3/C05')
